@@ -68,3 +68,54 @@ func c14Facts(fc *facts) {
 	}
 	fc.set("savepointDocFromRead", v, true, "")
 }
+
+// savepointIdsCounted  1: Store.LoadCheckpoint also keeps the id counter above the ids of EXISTING SAVEPOINTS: it calls,
+//                         on the paths it lists, a function of the same file whose body mentions the "job.savepoint"
+//                         file name (proposed repair of the savepoint-id reuse);
+//                      0: only the loaded checkpoint's id and the job-*.snapshot files count (the code as it is).
+// Observed by the C14 correspondence either way: ids handed out after `load` when a savepoint with a higher id exists.
+func init() { extraFactFns = append(extraFactFns, c14CounterFacts) }
+
+func c14CounterFacts(fc *facts) {
+	f := parseFile("storage/snapshots/store.go")
+	fn := findFunc(f, "Store", "LoadCheckpoint")
+	if fn == nil {
+		fn = findFunc(f, "*Store", "LoadCheckpoint")
+	}
+	if fn == nil || fn.Body == nil {
+		problemFor([]string{"savepointIdsCounted"}, "snapshots.Store.LoadCheckpoint not found")
+		return
+	}
+	mentions := map[string]bool{} // functions of the file whose body mentions "job.savepoint"
+	for _, d := range f.Decls {
+		fd, ok := d.(*ast.FuncDecl)
+		if !ok || fd.Body == nil || fd.Name.Name == "LoadCheckpoint" {
+			continue
+		}
+		ast.Inspect(fd.Body, func(x ast.Node) bool {
+			if l, ok := x.(*ast.BasicLit); ok && l.Value == `"job.savepoint"` {
+				mentions[fd.Name.Name] = true
+			}
+			return true
+		})
+	}
+	counted := false
+	ast.Inspect(fn.Body, func(x ast.Node) bool {
+		switch n := x.(type) {
+		case *ast.CallExpr:
+			if id, ok := n.Fun.(*ast.Ident); ok && mentions[id.Name] {
+				counted = true
+			}
+		case *ast.BasicLit:
+			if n.Value == `"job.savepoint"` {
+				counted = true
+			}
+		}
+		return true
+	})
+	v := uint64(0)
+	if counted {
+		v = 1
+	}
+	fc.set("savepointIdsCounted", v, true, "")
+}
